@@ -414,3 +414,96 @@ def w_borrow(cx):
               "witness %s (%s) behaves as required" % (n, kind) if ok else
               "witness %s (%s) does not: the type-level argument for immutability / exclusive registration no longer "
               "holds" % (n, kind))
+
+
+# ---------------------------------------------------------------------------------------------------------------------
+# R-CONTEXT-OP-FRESH (C18): Context::op always instantiates
+
+def _context_impls(cx, method):
+    out = []
+    for name in cx.f.fn_names():
+        if name.endswith(" as context::Context>::" + method) and name.startswith("<context::"):
+            out.append(name)
+    return sorted(out)
+
+
+@rule("R-CONTEXT-OP-FRESH", ["C18"])
+def r_context_op_fresh(cx):
+    """Every successful return of Context::op hands out the handle of an operator instantiated by this very call
+    (Op::new, whose handle is fresh by R-FRESH-ID) and stored under that handle: no path returns the handle of an
+    operator that existed before - such a handle would not be unique, and the operator behind it would not reflect
+    what has been registered since."""
+    n = 0
+    for name in _context_impls(cx, "op"):
+        f = cx.f.fn(name)
+        news = [bb for bb, t in f.calls() if (f.callee(t) or "") == "op::Op::new"]
+        inserts = [bb for bb, t in f.calls() if (f.callee(t) or "").endswith("BTreeMap::<K, V, A>::insert")]
+        oks = []
+        for bb in sorted(f.reachable()):
+            if f.term(bb)["k"] != "return":
+                continue
+            v = f.local_value(0, f.end_point(bb))
+            oks.append((bb, v))
+        n += 1
+        bad = None
+        # every Ok(..) construction of the returned value is dominated by Op::new and by the insert
+        ok_sites = []
+        for bb, i, s in f.all_stmts():
+            if s["k"] == "assign" and s["rv"]["k"] == "agg" and (s["rv"].get("variant") == "Ok" or s["rv"].get("vname") == "Ok") \
+                    and s["place"]["l"] == 0:
+                ok_sites.append(bb)
+        if not ok_sites:
+            # fall back: any aggregate assigned to the return place
+            for bb, i, s in f.all_stmts():
+                if s["k"] == "assign" and s["place"]["l"] == 0 and not s["place"]["p"] and s["rv"]["k"] == "agg":
+                    v = f.rvalue(s["rv"], (bb, i))
+                    if v[0] == "agg" and isinstance(v[1], tuple) and v[1][-1] == "Ok":
+                        ok_sites.append(bb)
+        for bb in ok_sites:
+            if not any(f.dominates(x, bb) for x in news):
+                bad = (bb, "without instantiating an operator (Op::new) on that path")
+            elif not any(f.dominates(x, bb) for x in inserts):
+                bad = (bb, "without storing the new operator under its handle")
+        if not ok_sites:
+            bad = (0, "no Ok(..) return found")
+        cx.ob("R-CONTEXT-OP-FRESH", name, bad is None,
+              "%s: every Ok(handle) is preceded by Op::new and by the insertion of the new operator" % name
+              if bad is None else "%s can return Ok(handle) %s" % (name, bad[1]),
+              cx.where(f.term(bad[0])["span"]) if bad else cx.where(f.d["span"]))
+    cx.count("R-CONTEXT-OP-FRESH", "impls", n)
+
+
+# ---------------------------------------------------------------------------------------------------------------------
+# R-REGISTRATION-FIRST (C18): run-time registrations take precedence over resource files
+
+FS_READ = ("std::fs::read_to_string", "std::fs::read", "std::fs::File::open", "std::fs::OpenOptions::open")
+
+
+@rule("R-REGISTRATION-FIRST", ["C18"])
+def r_registration_first(cx):
+    """In Plain::get_resource every access to the file system happens only after the table of run-time registered
+    resources has been consulted for the very name asked for - unconditionally: the look-up dominates every read."""
+    n = 0
+    for name in _context_impls(cx, "get_resource"):
+        f = cx.f.fn(name)
+        reads = [(bb, t) for bb, t in f.calls() if (f.callee(t) or "") in FS_READ or
+                 (f.callee(t) or "").startswith("std::fs::")]
+        if not reads:
+            continue
+        lookups = []
+        for bb, t in f.calls():
+            c = f.callee(t) or ""
+            if c.endswith("BTreeMap::<K, V, A>::get") or c.endswith("BTreeMap::<K, V, A>::contains_key"):
+                a = f.arg_terms(bb)
+                key = mir.strip_refs(a[1]) if len(a) > 1 else None
+                if key == ("arg", 2) or (key is not None and key[0] == "arg"):
+                    lookups.append(bb)
+        for k, (bb, t) in enumerate(reads):
+            n += 1
+            ok = any(f.dominates(x, bb) for x in lookups)
+            cx.ob("R-REGISTRATION-FIRST", "%s/read%d" % (name, k), ok,
+                  "the file read is reached only after the run-time registrations have been searched for the name" if ok
+                  else "%s can read a resource file without first looking the name up among the run-time "
+                       "registrations: a file-based definition then shadows a registered one" % name,
+                  cx.where(t["span"]))
+    cx.count("R-REGISTRATION-FIRST", "file_reads", n)
